@@ -41,6 +41,7 @@ func BuildStructCodec(p CodecBuilder, registry CodecRegistry, typ reflect.Type, 
 	var maxIndex int
 	var count int
 	for i := range c.fields {
+		verifYield(VerifYieldStructField)
 		sf := typ.Field(i)
 
 		r, _ := utf8.DecodeRuneInString(sf.Name)
@@ -103,6 +104,7 @@ func BuildStructCodec(p CodecBuilder, registry CodecRegistry, typ reflect.Type, 
 			field.deref = true
 		}
 	}
+	verifYield(VerifYieldStructFinish)
 	c.fields = c.fields[:count]
 
 	c.fieldsByIndex = make([]shortDesc, maxIndex+1)
